@@ -663,7 +663,9 @@ def warm_pass(groups, same, max_fail=6):
             "kind": "warm-history", "key": f"warm|{g.env['module']}|{raw[idx][0]}|{raw[idx][1]}",
             "symptom": "a call gives another outcome after earlier calls in the same process than it gives cold "
                        "(caches cleared only before the first call of the history)",
-            "env": {"module": g.env["module"], "defs": {str(k): v for k, v in g.env["defs"].items()}},
+            "env": dict({k: v for k, v in g.env.items() if k not in ("module", "defs")},
+                        module=g.env["module"], defs={str(k): v for k, v in g.env["defs"].items()}),
+            "group_class": type(g).__module__ + ":" + type(g).__name__,
             "roots": list(g.roots), "ref_depth": getattr(g, "ref_depth", 0),
             "history": [{"dir": raw[k][0], "ri": raw[k][1], "type": repr(g.pytys[raw[k][1]]), "input": _value_src(raw[k][2])}
                         for k in steps],
@@ -683,10 +685,19 @@ def replay_warm(payload, same):
         if isinstance(x, list):
             return tuple(_tup(y) for y in x) if (x and isinstance(x[0], str)) else [_tup(y) for y in x]
         return x
-    env = {"module": payload["env"]["module"] + "_replay",
-           "defs": {(int(k) if k.isdigit() else k): _tup(v) for k, v in payload["env"]["defs"].items()}}
+    env = dict({k: _tup(v) for k, v in payload["env"].items() if k not in ("module", "defs")},
+               module=payload["env"]["module"] + "_replay",
+               defs={(int(k) if k.isdigit() else k): _tup(v) for k, v in payload["env"]["defs"].items()})
     import coreprop
-    g = Group(env, [_tup(r) for r in payload["roots"]], coreprop.suppressed())
+    import importlib
+    cls = Group
+    modname, _, clsname = str(payload.get("group_class", "")).partition(":")
+    if modname and modname != __name__:
+        try:      # a property's own Group subclass (e.g. c07_spell.SpelledGroup materialises the module in another spelling)
+            cls = getattr(importlib.import_module(modname), clsname)
+        except Exception:
+            cls = Group
+    g = cls(env, [_tup(r) for r in payload["roots"]], coreprop.suppressed())
     g.ref_depth = payload.get("ref_depth", 0)
     try:
         ns = dict(g.mod.__dict__)
